@@ -45,10 +45,9 @@ func InitGenesis(ctx sdk.Ctx, keeper keeper.Keeper, supplyKeeper types.AuthKeepe
 			}
 			keeper.SetValidatorSigningInfo(ctx, validator.GetAddress(), signingInfo)
 		}
-		// if the validator is staked then add their tokens to the staked pool
-		if validator.IsStaked() {
-			stakedTokens = stakedTokens.Add(validator.GetTokens())
-		}
+		// the validator is staked or unstaking (unstaked ones were rejected above): in both
+		// cases its tokens are held by the staked pool until the unstaking completes
+		stakedTokens = stakedTokens.Add(validator.GetTokens())
 	}
 	// take the staked amount and create the corresponding coins object
 	stakedCoins := sdk.NewCoins(sdk.NewCoin(keeper.StakeDenom(ctx), stakedTokens))
